@@ -98,3 +98,9 @@ TEXT["C06"] = {
     "design_ref": "DESIGN.md section 3, C06",
     "level_note": "In-process handler invocation (more hostile than the wire). Sampling; the thorough tier raises the count 30x.",
 }
+TEXT["C18"] = {
+    "technique": "property-based testing (rapid): every client operation against generated scripts of distorted HTTP responses from a scripted RoundTripper; oracle = no panic, every API call returns, per-call request bound",
+    "level_text": "For each client request kind (incl. multi-request operations: push, chunked upload, resume, paging, large-manifest tag read) rapid draws a finite script of responses, each the well-formed answer distorted in exactly one dimension (status class, one of the seven headers the client reads, body shape/size, Content-Length relation), and a client configuration (ListPageSize incl. non-positive values, chunk hints). Every individual API call must return without panicking and must issue at most one request more than there are answers left; a watchdog fails calls that stop talking to the server but do not return.",
+    "design_ref": "DESIGN.md section 3, C18",
+    "level_note": "Sampling; magic header values come from tables built from the constants and parsing code paths of the client.",
+}
